@@ -55,6 +55,14 @@ func VerifHarness_C06_Index() {
 	verifAssert("other-pair-unaffected", err3 == nil)
 	verifReach("registered")
 
+	// history: an earlier question about the same pair from a method with other contexts available does not
+	// change the answer (the choice is a function of the registered functions and the contexts at hand)
+	switch nondetChoice("earlier-question-with-other-contexts", 3) {
+	case 1:
+		_, _ = idx.Get(sig, map[string]*xtype.Type{})
+	case 2:
+		_, _ = idx.Get(sig, map[string]*xtype.Type{"example.org/in.CtxA": nil, "example.org/in.CtxB": nil, "*example.org/in.CtxC": nil})
+	}
 	got, err := idx.Get(sig, avail)
 	ok1 := verifSubset(s1, sa)
 	ok2 := registered2 && verifSubset(s2, sa)
